@@ -40,3 +40,62 @@ func init() {
 			Edits: []edit{{srt, "\t\tif length < len(packedControlName) {", "\t\tif !(length >= len(packedControlName)) {"}}},
 	)
 }
+
+func init() {
+	const ans = "db/answer.go"
+	const data = "dnsdata/data.go"
+	addVariants(
+		variant{Name: "c01-reader-ttd-skip-4", Props: []string{"C01"}, Expect: []string{"C01.rowhead|ExtractRRFromRow|rdata-offset"},
+			Edits: []edit{{ans, "\t// the next 8 bytes contains `ttd` TAI timestamp, which we do not use... skip.\n\tdpos += 8\n", "\t// the next 8 bytes contains `ttd` TAI timestamp, which we do not use... skip.\n\tdpos += 4\n"}}},
+		variant{Name: "c01-reader-wildcard-set-misses-located", Props: []string{"C01"}, Expect: []string{"C01.rowhead|markers|wildcard-set"},
+			Edits: []edit{{ans, "\tif wildcard != (ch == '*' || ch == '*'+1) {", "\tif wildcard != (ch == '*') {"}}},
+		variant{Name: "c01-reader-skip-set-misses-located-exact", Props: []string{"C01"}, Expect: []string{"C01.rowhead|markers|located-set"},
+			Edits: []edit{{ans, "\tif (ch == '='+1) || (ch == '*'+1) {", "\tif ch == '*'+1 {"}}},
+		variant{Name: "c01-writer-located-marker-changed", Props: []string{"C01"}, Expect: []string{"C01.rowhead|markers|located-set"},
+			Edits: []edit{{data, "\t\t\t_, err = w.Write([]byte(\">\"))", "\t\t\t_, err = w.Write([]byte(\"<\"))"}}},
+		variant{Name: "c01-writer-ttl-16bit", Props: []string{"C01"}, Expect: []string{"C01.rowhead|putrrhead|header-width"},
+			Edits: []edit{{data, "\terr = binary.Write(w, binary.BigEndian, ttl)\n", "\terr = binary.Write(w, binary.BigEndian, uint16(ttl))\n"}}},
+		variant{Name: "c01-reader-little-endian-ttl", Props: []string{"C01"}, Expect: []string{"C01.rowhead|byte-order|big-endian-both-sides"},
+			Edits: []edit{{ans, "\trr.TTL = binary.BigEndian.Uint32(row[dpos : dpos+4])", "\trr.TTL = binary.LittleEndian.Uint32(row[dpos : dpos+4])"}}},
+		variant{Name: "c01-reader-weight-for-A-only", Props: []string{"C01"}, Expect: []string{"C01.rowhead|ExtractRRFromRow|weight-only-for-A-AAAA"},
+			Edits: []edit{{ans, "\tif rr.Qtype == dns.TypeAAAA || rr.Qtype == dns.TypeA {", "\tif rr.Qtype == dns.TypeA {"}}},
+		variant{Name: "c01-v2-key-location-before-name", Props: []string{"C01"}, Expect: []string{"C01.keylayout|makedomainkey|v2-order"},
+			Edits: []edit{{data, "\t\tk.WriteString(ResourceRecordsKeyMarker)\n\t\tputreverseddom(k, domain)\n\t\tputloc(k, lo)\n", "\t\tk.WriteString(ResourceRecordsKeyMarker)\n\t\tputloc(k, lo)\n\t\tputreverseddom(k, domain)\n"}}},
+		variant{Name: "c01-v1-reader-name-before-location", Props: []string{"C01"}, Expect: []string{"C01.keylayout|(*db.DataReader).IsAuthoritative|key=location"},
+			Edits: []edit{{ans, "\t\t\tlocalQ := append(loc.LocID[:], zoneCut...)\n", "\t\t\tlocalQ := append(append([]byte{}, zoneCut...), loc.LocID[:]...)\n"}}},
+		variant{Name: "benign-sorted-reader-private-marker-same-value", Props: []string{"C01"}, Benign: true,
+			Edits: []edit{{"db/answer_sorted.go", "\tkey := make([]byte, len(q)+len(loc.LocID)+len(dnsdata.ResourceRecordsKeyMarker))\n\tcopy(key, []byte(dnsdata.ResourceRecordsKeyMarker))\n\n\t// assumption is that both provided location AND empty location have same length\n\tlocationLength := len(loc.LocID)\n\tdomainNameStart := len(dnsdata.ResourceRecordsKeyMarker)\n", "\tconst rrMarker = \"\\000o\"\n\tkey := make([]byte, len(q)+len(loc.LocID)+len(rrMarker))\n\tcopy(key, []byte(rrMarker))\n\n\t// assumption is that both provided location AND empty location have same length\n\tlocationLength := len(loc.LocID)\n\tdomainNameStart := len(rrMarker)\n"},
+				{"db/answer_sorted.go", "\t\tif len(k) < len(dnsdata.ResourceRecordsKeyMarker) ||\n\t\t\t!bytes.Equal(k[:len(dnsdata.ResourceRecordsKeyMarker)], []byte(dnsdata.ResourceRecordsKeyMarker)) {", "\t\tif len(k) < len(rrMarker) ||\n\t\t\t!bytes.Equal(k[:len(rrMarker)], []byte(rrMarker)) {"},
+				{"db/answer_sorted.go", "func reverseZoneName(qName []byte) []byte {", "var _ = dnsdata.FeaturesKey\n\nfunc reverseZoneName(qName []byte) []byte {"}}},
+		variant{Name: "c01-ns-default-ttl-long", Props: []string{"C01"}, Expect: []string{"C01.ttl|Rns1|default-ttl=LinkTTL"},
+			Edits: []edit{{data, "func (r *Rns1) loadDefaults() {\n\tr.ttl = LinkTTL", "func (r *Rns1) loadDefaults() {\n\tr.ttl = LongTTL"}}},
+		variant{Name: "c01-short-ttl-value", Props: []string{"C01"}, Expect: []string{"C01.ttl|const|ShortTTL"},
+			Edits: []edit{{data, "\tShortTTL = 2560 ", "\tShortTTL = 3600 "}}},
+		variant{Name: "c01-sorted-reader-other-marker-value", Props: []string{"C01"}, Expect: []string{"C01.keylayout|(*db.sortedDataReader).ForEachResourceRecord|key=marker"},
+			Edits: []edit{{"db/db.go", "\tcopy(key, []byte(dnsdata.ResourceRecordsKeyMarker))\n\n\treverseZoneNameToBuffer", "\tcopy(key, []byte(\"\\000p\"))\n\n\treverseZoneNameToBuffer"}}},
+		variant{Name: "benign-extract-named-offsets(B4)", Props: []string{"C01"}, Benign: true,
+			Edits: []edit{{ans, "\t// the next 8 bytes contains `ttd` TAI timestamp, which we do not use... skip.\n\tdpos += 8\n", "\t// the next 8 bytes contains `ttd` TAI timestamp, which we do not use... skip.\n\tconst ttdLen = 8\n\tdpos += ttdLen\n"}}},
+	)
+}
+
+func init() {
+	const hgo = "dnsserver/handler.go"
+	addVariants(
+		variant{Name: "c01-refused-when-either-missing", Props: []string{"C01"}, Expect: []string{"C01.decision-table|(*dnsserver.FBDNSDB).ServeDNSWithRCODE|REFUSED-reply"},
+			Edits: []edit{{hgo, "\tif !ns && !auth {\n\t\th.stats.IncrementCounter(\"DNS_response.refused\")", "\tif !ns || !auth {\n\t\th.stats.IncrementCounter(\"DNS_response.refused\")"}}},
+		variant{Name: "c01-nxdomain-ignores-recordfound", Props: []string{"C01"}, Expect: []string{"C01.decision-table|(*dnsserver.FBDNSDB).ServeDNSWithRCODE|NXDOMAIN"},
+			Edits: []edit{{hgo, "\t\tif len(a.Answer) == 0 && !recordFound {", "\t\tif len(a.Answer) == 0 && (recordFound || !recordFound) {"}}},
+		variant{Name: "c01-soa-for-delegations", Props: []string{"C01"}, Expect: []string{"C01.decision-table|(*dnsserver.FBDNSDB).ServeDNSWithRCODE|FindSOA"},
+			Edits: []edit{{hgo, "\tif auth && len(a.Answer) == 0 {\n\t\tdb.FindSOA(", "\tif len(a.Answer) == 0 {\n\t\tdb.FindSOA("}}},
+		variant{Name: "c01-ns-added-even-if-present", Props: []string{"C01"}, Expect: []string{"C01.decision-table|(*dnsserver.FBDNSDB).ServeDNSWithRCODE|GetNs"},
+			Edits: []edit{{hgo, "\t} else if !auth && !db.HasRecord(a, unpackedControlDomain, dns.TypeNS) {", "\t} else if !auth || !db.HasRecord(a, unpackedControlDomain, dns.TypeNS) {"}}},
+		variant{Name: "c01-ds-reevaluation-for-all-types", Props: []string{"C01"}, Expect: []string{"C01.decision-table|"},
+			Edits: []edit{{hgo, "\tif !auth && state.QType() == dns.TypeDS && packedQName[0] != 0 {", "\tif !auth && packedQName[0] != 0 {"}}},
+		variant{Name: "c01-additional-section-skipped-for-referrals", Props: []string{"C01"}, Expect: []string{"C01.decision-table|(*dnsserver.FBDNSDB).ServeDNSWithRCODE|additional-section-on-every-path-to-final-write"},
+			Edits: []edit{{hgo, "\tweighted = db.AdditionalSectionForRecords(reader, a, loc, state.QClass(), a.Ns) || weighted\n", "\tif auth {\n\t\tweighted = db.AdditionalSectionForRecords(reader, a, loc, state.QClass(), a.Ns) || weighted\n\t}\n"}}},
+		variant{Name: "c01-aa-not-cleared-for-delegation", Props: []string{"C01"}, Expect: []string{"C01.decision-table|(*dnsserver.FBDNSDB).ServeDNSWithRCODE|AA-cleared"},
+			Edits: []edit{{hgo, "\t\t// q is in child zone\n\t\ta.Authoritative = false\n", "\t\t// q is in child zone\n\t\ta.Authoritative = ns && auth\n"}}},
+		variant{Name: "benign-decision-early-continue-form", Props: []string{"C01", "C19"}, Benign: true,
+			Edits: []edit{{hgo, "\tif auth && len(a.Answer) == 0 {\n\t\tdb.FindSOA(reader, zoneCut, unpackedControlDomain, loc, a)\n\t} else if !auth && !db.HasRecord(a, unpackedControlDomain, dns.TypeNS) {", "\tswitch {\n\tcase auth && len(a.Answer) == 0:\n\t\tdb.FindSOA(reader, zoneCut, unpackedControlDomain, loc, a)\n\tcase !auth && !db.HasRecord(a, unpackedControlDomain, dns.TypeNS):"}}},
+	)
+}
